@@ -19,7 +19,8 @@ import tempfile
 
 from ..common import NPROC, VERIF, Ctx, cnat
 
-PRE = "From QV.lib Require Import Prelude.\nFrom QV.model Require Import C08_Model.\n"
+PRE = ("From Coq Require Import String Ascii.\nFrom QV.lib Require Import Prelude.\n"
+       "From QV.model Require Import C08_Model C08_Model_Ext.\n")
 
 KIND_NAME = {0: "check", 1: "remove", 2: "mktemp", 3: "mkdir", 4: "w", 5: "zopen", 6: "z", 7: "zclose", 8: "rename"}
 CLASS_CODE = {"absent": 0, "unreadable": 1, "old": 2, "new": 3, "partial": 4}
@@ -31,6 +32,19 @@ FULL_CONFIGS = [("w", "none"), ("o", "none"), ("o", "oldzip"), ("o", "olddir"), 
 ONCE_CONFIGS = [("w", "oldzip"), ("w", "olddir"), ("w", "other")]
 BAD_KINDS = ["unpicklable", "nd_object", "list_with_unpicklable", "dict_with_unpicklable", "nested_with_unpicklable"]
 OLD_N, OLD_NZ = 6, 3      # size of the earlier save in the model (its items are disjoint from the new ones)
+
+# ---- round 3: unusual pre-existing targets (mode 'w' and 'o', both stores, every fault position)
+#   emptydir / foreigndir / foreignzip : a directory / archive that is not a store (load fails)
+#   symfile / symdir / dangling        : the target is a symbolic link (to a file, to a directory store, to nothing)
+#   immfile / immdir                   : a read-only target (chattr +i: also root cannot remove it)
+#   noparent                           : the target lies in a directory that does not exist
+ODD_PRES = ["emptydir", "foreigndir", "foreignzip", "symfile", "symdir", "dangling", "immfile", "immdir", "noparent"]
+PRE_ABSENT = ("none", "dangling", "noparent")       # os.path.exists(target) is False
+SMALL_SPEC = [["a0_int", "int", 5, None], ["a1_nd_f8", "nd_f8", 4, None]]
+STORE_ARGS = {"auto": "AAuto", "zip": "AZip", "dir": "ADir", "tar": "AOther"}
+NAME_POOL = ["obj", "obj.zip", "obj.ZIP", "obj.zip.bak", "my.obj", "my.obj.zip", "obj/", "obj.zip/", ".zip", ".hidden",
+             "a b", "sub/obj", "sub/obj.zip", "./obj", "x/../obj.zip", "obj.", "obj.zipx", "obj.Zip", "x/obj",
+             "x/obj.zip", "x/my.v2", "..obj", "obj..zip", "zip", "objzip", "x/.zip", "x/../my.obj", "./x/obj.ZIP"]
 
 
 def outcome_code(out):
@@ -111,13 +125,90 @@ def gen_jobs(ctx: Ctx):
     jobs += extra
     forms = ["exact", "noext", "auto", "pathlib"]
     for i, j in enumerate(jobs):
-        j["id"] = i
         if "path_form" not in j:
             f = forms[i % 4]
             if f == "noext" and j["store"] != "zip":
                 f = "pathlib"
             j["path_form"] = f
+    # ---- round 3 ----------------------------------------------------------------------------------
+    # unusual pre-existing targets: every fault position, small object
+    odd = [(s, m, p) for p in ODD_PRES for s in ("zip", "dir") for m in ("w", "o")]
+    if ctx.quick:
+        # write-once onto an odd target stops at the existence check (cheap): all of them; overwrite: rotate
+        off = r.randrange(2)
+        odd = [c for i, c in enumerate(odd) if c[1] == "w" or c[2] in ("symdir", "immdir", "noparent") or (i // 2 + off) % 2 == 0]
+    for (s_, m, p) in odd:
+        jobs.append({"kind": "enum", "spec": SMALL_SPEC, "old_spec": None, "store": s_, "mode": m, "pre": p,
+                     "phase": r.randrange(6), "graph": 2000, "path_form": "exact", "imm_root": str(ctx.dir / "imm")})
+    # faults inside the clean-up handlers, interrupted removal of an old directory target
+    n_h = ctx.budget(4, 16)
+    hcfg = [("zip", "o", "oldzip"), ("dir", "o", "olddir"), ("zip", "w", "none"), ("dir", "w", "none"),
+            ("zip", "o", "olddir"), ("dir", "o", "oldzip"), ("zip", "o", "other"), ("dir", "o", "none")]
+    for g in range(n_h):
+        s_, m, p = hcfg[g % len(hcfg)]
+        jobs.append({"kind": "hfault", "spec": gen_spec(r, r.randint(1, 3)), "old_spec": gen_spec(r, 2), "store": s_,
+                     "mode": m, "pre": p, "phase": g, "graph": 3000 + g, "path_form": "exact"})
+    for g in range(ctx.budget(2, 8)):
+        jobs.append({"kind": "rmfault", "spec": SMALL_SPEC, "old_spec": gen_spec(r, r.randint(2, 5)),
+                     "store": ("dir", "zip")[g % 2], "mode": "o", "pre": "olddir", "graph": 4000 + g,
+                     "path_form": "exact", "n_positions": ctx.budget(5, 12)})
+    jobs.append({"kind": "loadclass", "spec": [], "store": "dir", "mode": "w", "pre": "none", "graph": 5000,
+                 "path_form": "exact"})
+    # how the caller SPELLS the target: names x store argument x str/Path x mode x what is at the resolved name
+    # x a decoy at the name as given
+    names = list(NAME_POOL)
+    pieces = ["obj", "run", "v1", ".", "zip", "ZIP", ".zip", "_", " ", "-", "..", "a.b"]
+    while len(names) < ctx.budget(40, 160):
+        nm = "".join(r.choice(pieces) for _ in range(r.randint(1, 4)))
+        nm = r.choice(["", "", "x/", "./", "sub/"]) + nm + r.choice(["", "", "", "/"])
+        names.append(nm)
+    seen = set()
+    for i, nm in enumerate(names):
+        norm = os.path.normpath(nm)
+        if nm in seen or norm in (".", "..", "x", "sub", "sibdir", "sibling.txt") or norm.startswith("..") \
+                or os.path.isabs(nm) or norm.split(os.sep)[0] in ("sibdir", "sibling.txt"):
+            continue
+        seen.add(nm)
+        combos = [(a, ap) for a in ("auto", "zip", "dir") for ap in (False, True)]
+        if not ctx.quick:
+            chosen = combos + [("tar", False)]
+        else:
+            chosen = [combos[(i + t) % len(combos)] for t in (0, 3)] + ([("tar", bool(i % 2))] if i % 9 == 0 else [])
+        for t, (a, ap) in enumerate(chosen):
+            m, p = [("w", "none"), ("w", "other"), ("o", "oldzip"), ("o", "none"), ("w", "olddir"), ("o", "other")][(i + 2 * t) % 6]
+            if nm.endswith("/") and not ap and p in ("other", "oldzip"):
+                p = "olddir"      # "<file>/" is not the file for the OS; the location of a name is its abspath here
+            jobs.append({"kind": "names", "spec": SMALL_SPEC[:1 + (i + t) % 2], "old_spec": None, "mode": m, "pre": p,
+                         "phase": i + t, "graph": 6000 + i, "path_form": "exact", "n_positions": ctx.budget(3, 6),
+                         "naming": {"raw": nm, "store_arg": a, "as_path": ap, "decoy": [None, "file", "dir"][(i + t) % 3]}})
+    for i, j in enumerate(jobs):
+        j["id"] = i
     return jobs
+
+
+def name_codes(s):
+    return "[" + "; ".join("%d%%Z" % b for b in s.encode()) + "]"
+
+
+def resolve_names(ctx: Ctx, jobs):
+    """run the MODEL's path resolution for every names job: the resolved name is the target the harness
+    watches and prepares; (store, verdict) decide what the scenario expects"""
+    import pathlib
+    nj = [j for j in jobs if j["kind"] == "names"]
+    for j in nj:
+        nm = j["naming"]
+        nm["arg_str"] = str(pathlib.Path(nm["raw"])) if nm["as_path"] else nm["raw"]     # path = str(path)
+    vals = ctx.coq_eval("resolve", PRE, ["resolve_obs %s %s" % (STORE_ARGS[j["naming"]["store_arg"]],
+                                                               name_codes(j["naming"]["arg_str"])) for j in nj], shard=80)
+    for j, (st, codes, verdict) in zip(nj, vals):
+        nm = j["naming"]
+        nm["resolved"] = bytes(codes).decode()
+        nm["verdict"] = verdict
+        j["valid"] = verdict in (1, 2)
+        j["store"] = "zip" if verdict == 1 else "dir"
+        ctx.dist("names/store_arg=%s" % nm["store_arg"])
+        ctx.dist("names/verdict=%s" % {1: "zip", 2: "dir", 3: "unknown-store", 4: "dir-store-with-file-like-name"}[verdict])
+        ctx.dist("names/%s" % ("suffix-appended" if nm["resolved"] != nm["arg_str"] else "name-kept"))
 
 
 def job_cost(j):
@@ -125,8 +216,14 @@ def job_cost(j):
         return sum(3 + (size(s[3]) if s[3] else 0) + (4 if s[1] in ("tensor", "list_mixed", "dict", "dict_nested") else 0)
                    for s in spec)
     n = size(j["spec"]) + 6
-    if j["kind"] == "natural" or (j["mode"] == "w" and j["pre"] != "none"):
+    if j["kind"] == "natural" or (j["mode"] == "w" and j["pre"] not in PRE_ABSENT):
         return 3
+    if j["kind"] == "names":
+        return 3 + n * j.get("n_positions", 4) // 8
+    if j["kind"] in ("rmfault", "loadclass"):
+        return 8
+    if j["kind"] == "hfault":
+        return n * n // 4 + 5
     return n * n // 8 + 5
 
 
@@ -173,8 +270,81 @@ def run_workers(ctx: Ctx, jobs):
 
 # ------------------------------------------------------------------------------------------ model side
 def pre_entry(pre):
+    olddir = "(Dir (zseq 1000 %s))" % cnat(OLD_N)
     return {"none": "Absent", "oldzip": "(Zip true (zseq 1500 %s))" % cnat(OLD_NZ),
-            "olddir": "(Dir (zseq 1000 %s))" % cnat(OLD_N), "other": "(Other 7)"}[pre]
+            "olddir": olddir, "other": "(Other 7)",
+            "emptydir": "(Dir [])", "foreigndir": "(Dir [77%Z])", "foreignzip": "(Zip true [88%Z])",
+            "symfile": "(Other 8)", "symdir": olddir, "dangling": "Absent", "immfile": "(Other 7)",
+            "immdir": olddir, "noparent": "Absent"}[pre]
+
+
+def eff_pre(job):
+    """what the target holds as far as the model is concerned (a names job whose resolved target lies in a
+    directory that does not exist has no pre-existing target)"""
+    if job["kind"] == "names" and parent_missing(job):
+        return "none"
+    return job["pre"]
+
+
+def target_rel(job):
+    if job["kind"] == "names":
+        return os.path.normpath(job["naming"]["resolved"])
+    base = "obj.zip" if job["store"] == "zip" else "obj"
+    return os.path.join("nodir", "sub", base) if job["pre"] == "noparent" else base
+
+
+def parent_missing(job):
+    d = os.path.dirname(target_rel(job))
+    return d not in ("", "x")                  # the run directory holds the directories x/ and sibdir/ only
+
+
+def natural_failure(job):
+    """a primitive of the protocol that fails BY ITSELF in this scenario (the model: a fault at that effect)"""
+    pre = eff_pre(job)
+    if job["kind"] == "names" and not job.get("valid", True):
+        return None
+    if job["mode"] == "o" and pre in ("symdir", "immfile", "immdir"):
+        return "remove"            # shutil.rmtree refuses a symbolic link; an immutable target cannot be removed
+    if parent_missing(job) and job["store"] == "zip":
+        return "mktemp"            # TemporaryDirectory(dir = <missing parent>): FileNotFoundError
+    if pre == "dangling" and job["store"] == "dir":
+        return "rename"            # os.replace(<directory>, <symbolic link>): NotADirectoryError
+    return None
+
+
+def call_exprs(job, n, nz):
+    nm = job["naming"]
+    a, codes = STORE_ARGS[nm["store_arg"]], name_codes(nm["arg_str"])
+    m = "MW" if job["mode"] == "w" else "MO"
+    return ("(map effect_kind (call_prog (fun _ => 0) (fun _ => (1, 2)) %s (str_of %s) %s (zseq 0 %s) (zseq 500 %s)), "
+            "call_scen %s %s %s %s %s %s)" % (a, codes, m, cnat(n), cnat(nz), a, codes, m, pre_entry(eff_pre(job)),
+                                             cnat(n), cnat(nz)))
+
+
+def outcome_code_c(out):
+    return {"done": 0, "exists": 1, "error:ValueError": 4}.get(out, 3)
+
+
+def expected_sibling_changes(job, obs, handler_fault=None):
+    """changes outside the target that are NOT judged: (a) ancestors of the target created by a save into a
+    directory that did not exist (outside the property's quantifier), (b) the staging directory left behind
+    when the harness made its clean-up handler fail.  Returns (unexpected, ancestors_created, staging_left)"""
+    anc = set()
+    d = os.path.dirname(target_rel(job))
+    while d:
+        anc.add(d)
+        d = os.path.dirname(d)
+    temps = tuple(obs.get("temps") or ())
+    unexpected, n_anc, n_left = [], 0, 0
+    for c in obs["siblings_changed"]:
+        verb, _, path = c.partition(" ")
+        if verb == "created" and path in anc:
+            n_anc += 1
+        elif handler_fault == "hclean" and verb == "created" and any(path == t or path.startswith(t + os.sep) for t in temps):
+            n_left += 1 if path in temps else 1000      # >= 1000: something INSIDE the staging directory is left
+        else:
+            unexpected.append(c)
+    return unexpected, n_anc, n_left
 
 
 def scen_expr(fixed, store, mode, pre, n, nz):
@@ -187,8 +357,14 @@ def align(model_kinds, state_seq, pre):
     existence check is not an event; RemoveTarget is a no-op (no event) when there is no target.
     Returns (shape_ok, pos) with pos[s] = model index of the s-th state-changing event."""
     eff = [(i, KIND_NAME[k]) for i, k in enumerate(model_kinds)
-           if KIND_NAME[k] != "check" and not (KIND_NAME[k] == "remove" and pre == "none")]
+           if KIND_NAME[k] != "check" and not (KIND_NAME[k] == "remove" and pre in PRE_ABSENT)]
     return [k for _, k in eff] == list(state_seq), [i for i, _ in eff]
+
+
+def model_events(model_kinds, pre):
+    """(index, kind) of the effects of the model's program that the implementation shows as events"""
+    return [(i, KIND_NAME[k]) for i, k in enumerate(model_kinds)
+            if KIND_NAME[k] != "check" and not (KIND_NAME[k] == "remove" and pre in PRE_ABSENT)]
 
 
 def model_row(rows, k):
@@ -201,33 +377,63 @@ def fault_key(store, kind):
 
 
 # ------------------------------------------------------------------------------------------ comparison
-def oracle(job, obs, kind):
+def oracle(job, obs, kind, handler_fault=None, judge_partial=True):
     """the property text, on what the implementation left behind; returns [(key, what)]"""
     bad = []
     where = "store=%s mode=%s pre-existing=%s path-form=%s" % (job["store"], job["mode"], job["pre"], job.get("path_form", "exact"))
-    if obs["class"] == "partial":
+    if job.get("naming"):
+        nm = job["naming"]
+        where += " save(%s(%r), store=%r) -> target %r" % ("Path" if nm["as_path"] else "str", nm["raw"], nm["store_arg"],
+                                                          nm["resolved"])
+    if obs["class"] == "partial" and judge_partial:
         bad.append((fault_key(job["store"], kind),
                     "after a failed save (%s; fault %s) load(target) returns a PARTIAL object: %s"
                     % (where, kind, obs["detail"])))
-    if job["mode"] == "w" and job["pre"] != "none" and not obs["target_unmodified"]:
+    # write-once is judged for a pre-existing file or directory (the property's quantifier); a dangling
+    # symbolic link does not "exist" for os.path.exists and is outside it
+    if job["mode"] == "w" and eff_pre(job) not in PRE_ABSENT and not obs["target_unmodified"]:
         bad.append(("write-once-target-modified/%s/%s" % (job["store"], job["pre"]),
                     "mode 'w' modified an existing target (%s)" % where))
-    if obs["siblings_changed"]:
+    unexpected, _, _ = expected_sibling_changes(job, obs, handler_fault)
+    if unexpected:
         bad.append(("other-path-altered/%s" % job["store"],
-                    "save altered paths other than its target (%s): %s" % (where, obs["siblings_changed"][:6])))
+                    "save altered paths other than its target (%s): %s" % (where, unexpected[:6])))
     if obs["temp_leftovers"]:
         bad.append(("temp-left-behind/%s" % job["store"],
                     "save left temporary files behind (%s): %s" % (where, obs["temp_leftovers"][:6])))
     return bad
 
 
+def canon_class(job, obs):
+    """a dangling symbolic link is `absent` for os.path.exists (and for the model) but load() is attempted on
+    it: an untouched one counts as absent"""
+    if job["pre"] == "dangling" and obs["class"] == "unreadable" and obs["target_unmodified"]:
+        return "absent"
+    return obs["class"]
+
+
+def staging_parent_ok(job, obs):
+    """the staging directory is created in the directory of the RESOLVED target"""
+    want = os.path.dirname(target_rel(job)) or "."
+    got = [os.path.normpath(v) if isinstance(v, str) else "<system temp>" for k, v in obs.get("audit", []) if k == "temp_parent"]
+    return all(g == os.path.normpath(want) for g in got), got, want
+
+
 def check_results(ctx: Ctx, jobs, results):
     # ---- model expressions (need n, nz from the recorded traces)
     exprs, owners = [], []
+    lc_job = None
     for job in jobs:
         res = results.get(job["id"])
         if res is None or "harness_error" in res:
             raise RuntimeError("C08 job %s failed in the worker: %s" % (job["id"], (res or {}).get("harness_error")))
+        if job["kind"] == "loadclass":
+            lc_job = job
+            continue
+        if "skipped" in res:
+            ctx.dist("skipped/%s" % job["pre"])
+            ctx.cov.setdefault("skipped_scenarios", []).append("%s/%s/%s: %s" % (job["store"], job["mode"], job["pre"], res["skipped"]))
+            continue
         if job["kind"] == "natural":
             nat = res["natural"]
             done = [e[0] for e, c in zip(nat["events"], nat["completed"]) if c]
@@ -235,27 +441,55 @@ def check_results(ctx: Ctx, jobs, results):
         else:
             sk = res["clean"]["state_kinds"]
             n, nz = sk.count("w"), sk.count("z")
-            if job["mode"] == "w" and job["pre"] != "none":
+            if natural_failure(job) == "mktemp" or (job["kind"] == "names" and not job.get("valid", True)):
+                n, nz = 3, 2          # the save stops before the first write: any object
+            elif natural_failure(job) == "remove" and job["store"] == "zip":
+                nz = max(nz, 1)
+            if job["mode"] == "w" and eff_pre(job) not in PRE_ABSENT:
                 n, nz = 3, 2          # the save stops at the existence check: any object
         job["n"], job["nz"] = n, nz
-        exprs.append("(%s, %s)" % (scen_expr(True, job["store"], job["mode"], job["pre"], n, nz),
-                                   scen_expr(False, job["store"], job["mode"], job["pre"], n, nz)))
+        std = "(%s, %s)" % (scen_expr(True, job["store"], job["mode"], eff_pre(job), n, nz),
+                            scen_expr(False, job["store"], job["mode"], eff_pre(job), n, nz))
+        st, m = "SZip" if job["store"] == "zip" else "SDir", "MW" if job["mode"] == "w" else "MO"
+        if job["kind"] == "names":
+            exprs.append(call_exprs(job, n, nz))
+        elif job["kind"] == "hfault":
+            exprs.append("(%s, scen_stuck %s %s %s %s %s)" % (std, st, m, pre_entry(job["pre"]), cnat(n), cnat(nz)))
+        elif job["kind"] == "rmfault":
+            exprs.append("(%s, [%s])" % (std, "; ".join("scen_rm %s %s %s %s %s" % (st, pre_entry(job["pre"]), cnat(n), cnat(nz), cnat(jj))
+                                                       for jj in range(OLD_N + 1))))
+        else:
+            exprs.append(std)
         owners.append(job)
     vals = ctx.coq_eval("scen", PRE, exprs, shard=12)
+    if lc_job is not None:
+        check_load_classes(ctx, lc_job, results[lc_job["id"]])
 
     n_dis = 0
     sampled = 0
+    outside = ctx.cov.setdefault("observations_outside_quantifier", {})
     for job, val in zip(owners, vals):
-        kinds_f, rows_f, (kinds_u, rows_u) = val      # Coq prints ((a, b), (c, d)) as (a, b, (c, d))
         res = results[job["id"]]
+        stuck_rows = rm_rows = None
+        kinds_u = rows_u = None
+        if job["kind"] == "names":
+            kinds_f, rows_f = val[0], val[1][3]       # (kinds, (store, resolved name, verdict, rows))
+        elif job["kind"] == "hfault":
+            kinds_f, rows_f, (kinds_u, rows_u), stuck_rows = val
+        elif job["kind"] == "rmfault":
+            kinds_f, rows_f, (kinds_u, rows_u), rm_rows = val
+        else:
+            kinds_f, rows_f, (kinds_u, rows_u) = val      # Coq prints ((a, b), (c, d)) as (a, b, (c, d))
         cfg = "%s/%s/%s" % (job["store"], job["mode"], job["pre"])
         base_replay = {"kind": job["kind"], "spec": job["spec"], "old_spec": job.get("old_spec"), "store": job["store"], "path_form": job.get("path_form", "exact"),
-                       "mode": job["mode"], "pre": job["pre"], "graph": job.get("graph")}
+                       "mode": job["mode"], "pre": job["pre"], "graph": job.get("graph"), "naming": job.get("naming"),
+                       "valid": job.get("valid", True)}
         oracle_failed_here = False
+        oc = outcome_code_c if job["kind"] == "names" else outcome_code
 
-        def report_oracle(obs, kind, extra):
+        def report_oracle(obs, kind, extra, **kw):
             nonlocal oracle_failed_here
-            for key, what in oracle(job, obs, kind):
+            for key, what in oracle(job, obs, kind, **kw):
                 oracle_failed_here = True
                 ctx.violation(key, what, {**base_replay, **extra, "impl": obs})
 
@@ -293,38 +527,64 @@ def check_results(ctx: Ctx, jobs, results):
                               found_input=oracle_failed_here)
             continue
 
-        # ---------------- enumeration
+        # ---------------- enumeration (kinds enum / names / hfault / rmfault share the clean run)
         clean, faults = res["clean"], res["faults"]
         sk = clean["state_kinds"]
+        pre = eff_pre(job)
+        natf = natural_failure(job)
         ctx.dist("config/%s" % cfg)
+        ctx.dist("kind/%s" % job["kind"])
         ctx.dist("trace_len/%s" % ("<=10" if len(clean["events"]) <= 10 else "<=30" if len(clean["events"]) <= 30
                                    else "<=60" if len(clean["events"]) <= 60 else ">60"))
         report_oracle(clean, "none", {"inject_at": None})
-        model_clean = model_row(rows_f, len(kinds_f))
-        blocked = model_clean["outcome"] == 1
+        _, n_anc, _ = expected_sibling_changes(job, clean)
+        if n_anc:
+            outside["ancestors-of-the-target-created-by-a-save-into-a-missing-directory"] = \
+                outside.get("ancestors-of-the-target-created-by-a-save-into-a-missing-directory", 0) + 1
+        if job["pre"] == "dangling" and not clean["target_unmodified"]:
+            outside["dangling-symlink-target-replaced"] = outside.get("dangling-symlink-target-replaced", 0) + 1
+        # index of the effect the uninterrupted save ends at: the end of the program, or the primitive that
+        # fails by itself in this scenario
+        kind_code = {v: k for k, v in KIND_NAME.items()}
+        if natf is not None and kind_code[natf] in kinds_f:
+            k_end = list(kinds_f).index(kind_code[natf])
+        else:
+            natf, k_end = None, len(kinds_f)
+        model_clean = model_row(rows_f, k_end)
+        blocked = model_row(rows_f, len(kinds_f))["outcome"] in (1, 4) or (
+            job["kind"] == "names" and not job.get("valid", True))
         if blocked:
             shape_ok, pos = (sk == []), []
+            model_clean = model_row(rows_f, len(kinds_f))
         else:
-            shape_ok, pos = align(kinds_f, sk, job["pre"])
-        shape_unfixed_ok = (sk == []) if blocked else align(kinds_u, sk, job["pre"])[0]
-        ctx.count(("enum-clean", json.dumps(job["spec"]), cfg), nontrivial=not blocked)
+            ev = model_events(kinds_f, pre)
+            pos = [i for i, _ in ev]
+            # the recorded effects are the model's program (up to and including a primitive that fails by itself)
+            shape_ok = list(sk) == [nm_ for i, nm_ in ev if i <= k_end]
+        shape_unfixed_ok = False
+        if kinds_u is not None:
+            shape_unfixed_ok = (sk == []) if blocked else align(kinds_u, sk, pre)[0]
+        ctx.count((job["kind"] + "-clean", json.dumps(job["spec"]), cfg, json.dumps(job.get("naming"))), nontrivial=not blocked)
         ctx.cov["traces_validated_against_impl"] += 1
         if not shape_ok:
             n_dis += 1
             ctx.cov["disagreements_checked"] += 1
-            any_oracle = oracle_failed_here or any(oracle(job, f, clean["events"][f["j"]][0]) for f in faults)
+            any_oracle = oracle_failed_here or any(oracle(job, f, clean["events"][f["j"]][0] if f.get("j") is not None else "none",
+                                                           handler_fault=f.get("hf"), judge_partial=job["kind"] != "rmfault")
+                                                    for f in faults)
             ctx.violation("protocol-correspondence",
                           "the effects save() performs (%s) are not those of the atomic protocol the theorems are about "
-                          "(%s) for %s%s" % (compress(sk), compress([KIND_NAME[k] for k in kinds_f]), cfg,
-                                             "; they ARE those of the unrepaired protocol save_prog_unfixed, for which "
-                                             "the property is refuted (C08_no_partial_loadable_refuted_*)"
-                                             if shape_unfixed_ok else ""),
+                          "(%s) for %s%s%s" % (compress(sk), compress([KIND_NAME[k] for k in kinds_f]), cfg,
+                                               " [%s]" % json.dumps(job["naming"]) if job.get("naming") else "",
+                                               "; they ARE those of the unrepaired protocol save_prog_unfixed, for which "
+                                               "the property is refuted (C08_no_partial_loadable_refuted_*)"
+                                               if shape_unfixed_ok else ""),
                           {**base_replay, "impl_effects": sk, "model_effects": [KIND_NAME[k] for k in kinds_f],
                            "matches_unfixed_model": shape_unfixed_ok}, found_input=any_oracle)
-        if not shape_ok and shape_unfixed_ok and not blocked:
+        if not shape_ok and shape_unfixed_ok and not blocked and job["kind"] == "enum":
             # diagnosis: does the code behave as the model of the UNREPAIRED protocol says, fault by fault?
             # (where that model says "partial", load may also fail deeper inside a half-written group)
-            _, pos_u = align(kinds_u, sk, job["pre"])
+            _, pos_u = align(kinds_u, sk, pre)
             agree = total = 0
             for f in faults:
                 s_ = sum(1 for e in clean["events"][:f["j"]] if e[0] in _state_kinds())
@@ -335,60 +595,128 @@ def check_results(ctx: Ctx, jobs, results):
             ua = ctx.cov.setdefault("agreement_with_model_of_unrepaired_protocol", {"agree": 0, "total": 0})
             ua["agree"] += agree
             ua["total"] += total
+        # staging directory: in the directory of the resolved target (per-step observable)
+        sp_ok, sp_got, sp_want = staging_parent_ok(job, clean)
+        if not sp_ok:
+            n_dis += 1
+            ctx.violation("staging-parent-correspondence",
+                          "save() stages under %s, the protocol the theorems are about stages in the directory of the "
+                          "resolved target (%s) (%s)" % (sp_got, sp_want, cfg),
+                          {**base_replay, "inject_at": None, "impl": clean}, found_input=oracle_failed_here)
         # clean run vs model (no fault)
         same = (model_clean["class"], model_clean["target_unmodified"], model_clean["outcome"]) == (
-            clean["class"], clean["target_unmodified"], outcome_code(clean["outcome"]))
+            canon_class(job, clean), clean["target_unmodified"], oc(clean["outcome"]))
         if not same:
             n_dis += 1
             ctx.cov["disagreements_checked"] += 1
             ctx.violation("clean-save-correspondence",
-                          "uninterrupted save (%s): implementation class=%s unmodified=%s outcome=%s, model %s"
-                          % (cfg, clean["class"], clean["target_unmodified"], clean["outcome"], model_clean),
+                          "uninterrupted save (%s%s): implementation class=%s unmodified=%s outcome=%s, model %s"
+                          % (cfg, " [%s]" % json.dumps(job["naming"]) if job.get("naming") else "", clean["class"],
+                             clean["target_unmodified"], clean["outcome"], model_clean),
                           {**base_replay, "inject_at": None, "impl": clean, "model": model_clean},
                           found_input=oracle_failed_here)
+        if job["kind"] == "names":
+            nm = job["naming"]
+            ctx.dist("names/outcome=%s" % clean["outcome"])
+            if res.get("decoy_made"):
+                ctx.dist("names/decoy-at-the-name-as-given")
+            if sampled < 6 and nm["resolved"] != nm["arg_str"] and res.get("decoy_made"):
+                ctx.sample({"call": "save(%s(%r), mode=%r, store=%r)" % ("Path" if nm["as_path"] else "str", nm["raw"], job["mode"], nm["store_arg"]),
+                            "model_resolves_to": nm["resolved"], "pre_existing_at_resolved_name": job["pre"],
+                            "decoy_at_name_as_given": nm["decoy"], "impl": {"outcome": clean["outcome"], "class": clean["class"],
+                                                                           "siblings_changed": clean["siblings_changed"], "audit": clean["audit"]}})
         for f in faults:
             j = f["j"]
-            kind = clean["events"][j][0]
+            hf = f.get("hf")
+            kind = clean["events"][j][0] if j is not None else ("rmtree-interrupted" if "removed" in f else "none")
             ctx.dist("fault_at/%s" % kind)
             ctx.dist("class/%s" % f["class"])
             ctx.dist("exc/%s" % f["exc"])
-            ctx.count(("enum", json.dumps(job["spec"]), cfg, j), nontrivial=True)
+            if hf:
+                ctx.dist("handler_fault/%s%s" % (hf, "" if f["hfired"] else "/handler-not-reached"))
+            ctx.count((job["kind"], json.dumps(job["spec"]), cfg, json.dumps(job.get("naming")), j, hf, f.get("removed")), nontrivial=True)
             ctx.cov["traces_validated_against_impl"] += 1
-            extra = {"inject_at": j, "exc": f["exc"], "event": clean["events"][j]}
+            extra = {"inject_at": j, "exc": f["exc"], "event": clean["events"][j] if j is not None else None,
+                     "handler_fault": hf, "inside_remove": f.get("removed")}
             before = oracle_failed_here
             oracle_failed_here = False
-            report_oracle(f, kind, extra)
+            report_oracle(f, kind, extra, handler_fault=hf, judge_partial=job["kind"] != "rmfault")
             this_failed = oracle_failed_here
             oracle_failed_here = before or this_failed
-            if not f["prefix_ok"] or not f["fired"]:
+            if j is not None and (not f["prefix_ok"] or not f["fired"]):
                 ctx.violation("nondeterministic-trace", "the faulted run did not follow the recorded trace (%s, j=%d)" % (cfg, j),
                               {**base_replay, **extra, "impl": f}, found_input=this_failed)
                 continue
             if not shape_ok:
                 continue
+            # ---- interrupted removal of the old directory target (outside the quantifier: observed, tied to the model)
+            if "removed" in f:
+                k_rm = list(kinds_f).index(kind_code["remove"])
+                model_classes = {CLASS_NAME[rows[k_rm][0]] for rows in rm_rows} | {"old"}
+                sib_ok = all(rows[k_rm][3] and rows[k_rm][4] for rows in rm_rows)
+                ok_rm = (f["class"] in model_classes and oc(f["outcome"]) == 3 and not f["target_unmodified"]
+                         and not f["siblings_changed"] and not f["temp_leftovers"] and sib_ok)
+                if f["class"] == "partial":
+                    key = "interrupted-removal-of-old-directory-target-leaves-loadable-partial-OLD-object"
+                    outside[key] = outside.get(key, 0) + 1
+                if not ok_rm:
+                    n_dis += 1
+                    ctx.violation("interrupted-removal-correspondence",
+                                  "shutil.rmtree(target) interrupted after %d of %d files (%s): implementation left class=%s "
+                                  "unmodified=%s outcome=%s siblings=%s; the model (C08_interrupted_removal) allows classes %s, "
+                                  "a modified target, outcome fault and nothing else changed"
+                                  % (f["removed"], res.get("nfiles", -1), cfg, f["class"], f["target_unmodified"], f["outcome"],
+                                     f["siblings_changed"], sorted(model_classes)),
+                                  {**base_replay, **extra, "impl": f}, found_input=this_failed)
+                continue
             if blocked:
                 # an event before the existence check (none today): nothing may have happened yet
-                if (f["class"], f["target_unmodified"]) != (model_clean["class"], True):
+                if (canon_class(job, f), f["target_unmodified"]) != (model_clean["class"], True):
                     n_dis += 1
                     ctx.violation("fault-outcome-correspondence", "fault before the existence check changed the target (%s)" % cfg,
                                   {**base_replay, **extra, "impl": f}, found_input=this_failed)
                 continue
-            s = sum(1 for e in clean["events"][:j] if e[0] in _state_kinds())
-            k = pos[s] if s < len(pos) else len(kinds_f)
+            if j is None:
+                k = k_end                       # no primary fault: the save runs to its end (then the handler fails)
+            else:
+                s = sum(1 for e in clean["events"][:j] if e[0] in _state_kinds())
+                k = pos[s] if s < len(pos) else len(kinds_f)
+                k = min(k, k_end)
             mr = model_row(rows_f, k)
-            same = (mr["class"], mr["target_unmodified"], mr["outcome"]) == (
-                f["class"], f["target_unmodified"], outcome_code(f["outcome"]))
             if not mr["frame"]:
                 raise RuntimeError("model frame check failed (contradicts C08_frame): %s k=%d" % (cfg, k))
+            want_outcome = mr["outcome"]
+            if hf == "hclean" and f["hfired"]:
+                # C08_cleanup_faults_agree: target and every path outside the staging area as without the handler
+                # fault; the exception of the failing handler comes out of save()
+                srow = stuck_rows[min(k, len(stuck_rows) - 1)]
+                _, _, n_left = expected_sibling_changes(job, f, "hclean")
+                staging_left_model = not srow[4]
+                if (CLASS_NAME[srow[0]], bool(srow[1]), bool(srow[3])) != (mr["class"], mr["target_unmodified"], True):
+                    raise RuntimeError("model: scen_stuck disagrees with scen outside the staging area (contradicts "
+                                       "C08_cleanup_faults_agree): %s k=%d" % (cfg, k))
+                want_outcome = 3
+                # (the model's staging path is directory and staged store in one: when it says nothing is left, the
+                # emptied container directory may remain)
+                if (staging_left_model and n_left == 0) or (not staging_left_model and n_left >= 1000):
+                    n_dis += 1
+                    ctx.violation("cleanup-fault-correspondence",
+                                  "TemporaryDirectory clean-up made to fail (%s, fault before event %s): staging directory left "
+                                  "behind = %s, the model (stuck_env) says %s" % (cfg, j, n_left > 0, staging_left_model),
+                                  {**base_replay, **extra, "impl": f}, found_input=this_failed)
+            same = (mr["class"], mr["target_unmodified"], want_outcome) == (
+                canon_class(job, f), f["target_unmodified"], oc(f["outcome"]))
             if not same:
                 n_dis += 1
                 ctx.cov["disagreements_checked"] += 1
-                ctx.violation("fault-outcome-correspondence",
-                              "fault before event %d (%s) of %s: implementation left class=%s unmodified=%s outcome=%s, "
-                              "the model says %s at k=%d" % (j, clean["events"][j][:2], cfg, f["class"],
-                                                             f["target_unmodified"], f["outcome"], mr, k),
+                ctx.violation("fault-outcome-correspondence" if not hf else "cleanup-fault-correspondence",
+                              "fault before event %s (%s)%s of %s%s: implementation left class=%s unmodified=%s outcome=%s, "
+                              "the model says %s at k=%d" % (j, clean["events"][j][:2] if j is not None else "-",
+                                                             " + failing clean-up handler %s" % hf if hf else "", cfg,
+                                                             " [%s]" % json.dumps(job["naming"]) if job.get("naming") else "",
+                                                             f["class"], f["target_unmodified"], f["outcome"], mr, k),
                               {**base_replay, **extra, "impl": f, "model": mr, "k": k}, found_input=this_failed)
-        if sampled < 4 and faults and not blocked:
+        if sampled < 4 and faults and not blocked and job["kind"] == "enum":
             sampled += 1
             mid = faults[len(faults) // 2]
             ctx.sample({"config": cfg, "n_item_writes": job["n"], "n_zip_members": job["nz"], "effects": compress(sk),
@@ -397,10 +725,29 @@ def check_results(ctx: Ctx, jobs, results):
                                  "outcome": mid["outcome"], "siblings_changed": mid["siblings_changed"]},
                         "classes_over_k": compress([f["class"] for f in faults] + [clean["class"]])})
     ctx.log("enumeration: %d scenarios, %d disagreements with the model" % (len(owners), n_dis))
+    if outside:
+        ctx.log("observed outside the property's quantifier (not judged): %s" % json.dumps(outside))
     ua = ctx.cov.get("agreement_with_model_of_unrepaired_protocol")
     if ua:
         ctx.log("the code follows the UNREPAIRED protocol; fault-by-fault agreement with save_prog_unfixed: %d/%d"
                 % (ua["agree"], ua["total"]))
+
+
+def check_load_classes(ctx: Ctx, job, res):
+    """load() of one on-disk instance of every class of entry vs load_model"""
+    rows = res["loadclass"]
+    vals = ctx.coq_eval("loadclass", PRE, ["load_obs %s" % entry for _, entry, _ in rows], shard=80)
+    for (label, entry, got), want in zip(rows, vals):
+        ctx.dist("load_class/%s=%s" % (label, got))
+        ctx.count(("loadclass", label), nontrivial=True)
+        ctx.cov["traces_validated_against_impl"] += 1
+        ok = (got == "obj") if want == 1 else got.startswith("err:")
+        if not ok:
+            ctx.violation("load-acceptance-correspondence",
+                          "load() of a target holding %s (%s): implementation %s, load_model says %s"
+                          % (label, entry, got, "an object" if want == 1 else "an error"),
+                          {"kind": "loadclass", "label": label, "entry": entry, "impl": got, "model": want},
+                          found_input=False)
 
 
 def _state_kinds():
@@ -428,26 +775,47 @@ def run(ctx: Ctx):
         "file}, position j of the injected exception among the primitive effects of the recorded trace) or (graph with "
         "an unserialisable attribute at position i, store, mode, pre-existing); graphs are seeded random attribute "
         "lists over 24 value kinds (scalars, arrays, tensors, containers, nested objects, dill fallback); every j of "
-        "every trace is enumerated; a case is distinct by (graph, configuration, j) and non-trivial when the save gets "
-        "past the existence check")
+        "every trace is enumerated, the injected exception cycles over OSError / RuntimeError / KeyboardInterrupt / "
+        "SystemExit / GeneratorExit / a bare BaseException subclass; a case is distinct by (graph, configuration, j) "
+        "and non-trivial when the save gets past the existence check.  Round 3 adds: (a) unusual pre-existing targets "
+        "(empty directory, directory / archive that is no store, symbolic link to a file / to a directory store / to "
+        "nothing, read-only target via chattr +i, target in a directory that does not exist) x both stores x both modes "
+        "x every j; (b) spellings of the target: ~30 fixed + random names (no suffix, .zip, .ZIP, .zip.bak, dots, "
+        "trailing slash, ./ and x/../ prefixes, missing parent) x store argument {auto, zip, dir, unknown} x {str, "
+        "Path} x mode x {nothing, file, archive, directory} at the RESOLVED name x a decoy {none, file, directory} at "
+        "the name as given, with the resolved name computed by the model's `resolve`; (c) faults INSIDE the clean-up "
+        "handlers (TemporaryDirectory.__exit__ raising at normal exit and on top of a fault at every j; "
+        "ZipFile.__exit__ raising during zip assembly); (d) shutil.rmtree of an old directory target interrupted after "
+        "r files (outside the quantifier: observed and tied to the model, not judged); (e) load() of one on-disk "
+        "instance of every class of entry of the model")
     ctx.assumptions += [
-        "a fault is an exception raised between Python-level effects (before a hooked primitive runs); OS crashes, "
-        "fsync and rename atomicity are not modelled",
-        "clean-up handlers (TemporaryDirectory.__exit__, ZipFile.__exit__) themselves do not fail",
+        "a fault is an exception raised between Python-level effects (before a hooked primitive runs), inside a "
+        "clean-up handler, or part-way through shutil.rmtree of the old target; OS crashes, fsync and rename "
+        "atomicity are not modelled",
+        "one save at a time: concurrent saves / a load racing with a save on the same target are out of scope (of the "
+        "model and of the property's quantifier)",
+        "the location a name denotes is os.path.abspath(name) (the model's abstract `loc`); str(path) of a pathlib.Path "
+        "is computed by the harness before the model's `resolve` is applied",
         "zarr LocalStore writes each key atomically (temp + replace) and os.replace within one directory is atomic",
         "load() is a deterministic function of the bytes of the target",
     ]
     ctx.cov["trusted_base"] += [
         "Coq 8.16.1 kernel incl. vm_compute (used to run the model); no native_compute; no axioms",
-        "hand-written model coq/model/C08_Model.v (effects, handlers, load acceptance) tied to /repo by the fault enumeration",
+        "hand-written model coq/model/C08_Model.v + C08_Model_Ext.v (effects, handlers, load acceptance, path resolution, "
+        "environments of failing handlers / interruptible removal) tied to /repo by the fault enumeration",
         "harness/impl_C08.py: the list of hooked primitives is the definition of 'write operation' (zarr group/array/"
         "attribute mutators, ZipFile open/write/end-record, tempfile, os/shutil remove/rename/makedirs on the target)",
-        "harness/props/C08.py (generators, trace-to-program alignment, classification by canonical form of the loaded object)",
+        "harness/props/C08.py (generators, trace-to-program alignment, classification by canonical form of the loaded "
+        "object, table scenario -> model entry / primitive that fails by itself)",
     ]
     ctx.proofs_or_violation()
     jobs = gen_jobs(ctx)
-    ctx.log("%d scenarios (%d enumerated, %d natural failures)" % (
-        len(jobs), sum(j["kind"] == "enum" for j in jobs), sum(j["kind"] == "natural" for j in jobs)))
+    resolve_names(ctx, jobs)
+    ctx.log("%d scenarios (%d enumerated, %d natural failures, %d spellings of the target, %d clean-up faults, "
+            "%d interrupted removals)" % (
+                len(jobs), sum(j["kind"] == "enum" for j in jobs), sum(j["kind"] == "natural" for j in jobs),
+                sum(j["kind"] == "names" for j in jobs), sum(j["kind"] == "hfault" for j in jobs),
+                sum(j["kind"] == "rmfault" for j in jobs)))
     results = run_workers(ctx, jobs)
     ctx.log("implementation runs finished")
     check_results(ctx, jobs, results)
@@ -455,34 +823,58 @@ def run(ctx: Ctx):
 
 def replay(ctx: Ctx, path):
     rp = json.loads(open(path).read())
+    if rp.get("kind") == "loadclass":
+        from .. import impl_C08 as I
+        scratch = tempfile.mkdtemp(prefix="verif_c08_replay_")
+        try:
+            rows = I.load_classes(scratch)
+        finally:
+            shutil.rmtree(scratch, ignore_errors=True)
+        vals = ctx.coq_eval("replay", PRE, ["load_obs %s" % e for _, e, _ in rows])
+        bad = 0
+        for (label, entry, got), want in zip(rows, vals):
+            ok = (got == "obj") if want == 1 else got.startswith("err:")
+            bad += not ok
+            print("%-45s %-28s load(): %-22s load_model: %s %s" % (label, entry, got, "object" if want == 1 else "error", "" if ok else "  <-- differs"))
+        return 1 if bad else 0
     if "spec" not in rp:
         print("replay names a proof obligation / correspondence batch: re-run ./check C08")
         print(rp.get("what"))
         return 0
     from .. import impl_C08 as I
-    job = {"id": 0, "kind": "natural" if rp.get("natural") else ("single" if rp.get("inject_at") is not None else "enum"),
+    single = rp.get("inject_at") is not None or rp.get("handler_fault") or rp.get("inside_remove")
+    job = {"id": 0, "kind": "natural" if rp.get("natural") else ("single" if single else ("names" if rp.get("naming") else "enum")),
            "spec": rp["spec"], "old_spec": rp.get("old_spec"), "store": rp["store"], "path_form": rp.get("path_form", "exact"), "mode": rp["mode"], "pre": rp["pre"],
-           "inject_at": rp.get("inject_at"), "exc": rp.get("exc", "os")}
+           "inject_at": rp.get("inject_at"), "exc": rp.get("exc") or "os", "naming": rp.get("naming"), "valid": rp.get("valid", True),
+           "handler_fault": rp.get("handler_fault"), "inside_remove": rp.get("inside_remove"), "imm_root": str(ctx.dir / "imm"),
+           "n_positions": 6}
     scratch = tempfile.mkdtemp(prefix="verif_c08_replay_")
     try:
         res = I.run_job(job, scratch)
     finally:
         shutil.rmtree(scratch, ignore_errors=True)
+    if "skipped" in res:
+        print("scenario skipped:", res["skipped"])
+        return 0
     bad = []
     if job["kind"] == "natural":
-        obs = [("natural", res["natural"])]
+        obs = [("natural", res["natural"], None)]
     else:
-        obs = [("none", res["clean"])] if job["kind"] == "enum" else []
+        obs = [("none", res["clean"], None)] if job["kind"] in ("enum", "names") else []
         for f in res.get("faults", []):
-            obs.append((res["clean"]["events"][f["j"]][0], f))
-    for kind, o in obs:
+            obs.append((res["clean"]["events"][f["j"]][0] if f.get("j") is not None else "none", f, rp.get("handler_fault")))
+    if job.get("naming"):
+        nm = job["naming"]
+        print("call: save(%s(%r), mode=%r, store=%r); the model resolves it to %r (verdict %s)" % (
+            "Path" if nm["as_path"] else "str", nm["raw"], job["mode"], nm["store_arg"], nm["resolved"], nm["verdict"]))
+    for kind, o, hf in obs:
         print("fault at: %-8s outcome=%-8s class=%-10s target_unmodified=%s siblings_changed=%s temp_leftovers=%s %s" % (
-            kind if "j" not in o else "%s#%d" % (kind, o["j"]), o["outcome"], o["class"], o["target_unmodified"],
+            kind if o.get("j") is None else "%s#%d" % (kind, o["j"]), o["outcome"], o["class"], o["target_unmodified"],
             o["siblings_changed"], o["temp_leftovers"], o["detail"]))
-        bad += oracle(job, o, kind)
-    if job["kind"] != "natural":
+        bad += oracle(job, o, kind, handler_fault=hf, judge_partial=not rp.get("inside_remove"))
+    if job["kind"] != "natural" and not job.get("naming"):
         sk = res["clean"]["state_kinds"]
-        v = ctx.coq_eval("replay", PRE, [scen_expr(True, job["store"], job["mode"], job["pre"], sk.count("w"), sk.count("z"))])[0]
+        v = ctx.coq_eval("replay", PRE, [scen_expr(True, job["store"], job["mode"], eff_pre(job), max(1, sk.count("w")), sk.count("z"))])[0]
         print("implementation effects:", compress(sk))
         print("model (atomic protocol) effects:", compress([KIND_NAME[k] for k in v[0]]))
         print("model classes over k:", compress([CLASS_NAME[r[0]] for r in v[1]]))
